@@ -626,4 +626,324 @@ theorem invL_step (bs : Int) {st st' : IdxState} {line : Bytes} {rest : List Byt
                 have := hB (by rw [hr]; simp)
                 simpa [safeB, hb, hl] using this
 
+/-! ### pieces of the translated text -/
+
+/-- `if region_end: seq_regions.append((region_start, region_end))` in the translated form: `c` is the truthiness test,
+    `x` the `append` with its `None` checks -/
+theorem ite_closeReg {c : Prop} [Decidable c] (rs : Int) (re : Option Int) (regs : List (Int × Int))
+    (x : R (Option (List (Int × Int)))) (hc : c ↔ ∃ v, re = some v ∧ v ≠ 0)
+    (hx : ∀ v, re = some v → v ≠ 0 → x = .ok (some (regs ++ [(rs, v)]))) :
+    (if c then x else .ok (some regs)) = .ok (some (closeReg (rs, re, regs))) := by
+  by_cases h : c
+  · obtain ⟨v, hv, hv0⟩ := hc.mp h
+    rw [if_pos h, hx v hv hv0, hv]
+    simp [closeReg, hv0]
+  · rw [if_neg h]
+    cases re with
+    | none => rfl
+    | some v =>
+      by_cases hv0 : v = 0
+      · subst hv0; rfl
+      · exact absurd (hc.mpr ⟨v, rfl, hv0⟩) h
+
+/-- `if rem := …: scffld.add_row(Gap(rem, "scaffold"))` -/
+theorem ite_scaffold (c : Prop) [Decidable c] (n : Str) (a b : List Row) :
+    (if decide c = true then ({ name := n, rows := a } : Scaffold) else { name := n, rows := b }) =
+      { name := n, rows := if c then a else b } := by
+  by_cases h : c <;> simp [h]
+
+/-- a loop whose body raises `e` on every element, followed by code that raises `e` too -/
+theorem forIn_bind_error {α σ ρ β : Type} (e : Err) (xs : List α) (s : σ) (body : α → σ → R (Ctl σ ρ)) (k : Done σ ρ → R β)
+    (hb : ∀ x s, body x s = .error e) (hk : ∀ s, k (.fell s) = .error e) : (PyRt.forIn xs s body >>= k) = .error e := by
+  cases xs with
+  | nil => exact hk s
+  | cons x xs => rw [PyRt.forIn, hb]; rfl
+
+/-- the body of `process_seq_buffer`'s loop, on the region triple, is `mergeRun` (`L` = the current `seq_length`) -/
+macro "proc_body" L:term : tactic => `(tactic| (
+  intro m _ t
+  obtain ⟨rs, re, regs⟩ := t
+  simp only [absReg, mergeRun, ok_bind, needInt_some, needObj_some, Int.ofNat_eq_natCast]
+  by_cases h1 : re = some ($L + (m.fst : Int))
+  · subst h1; simp only [decide_true, if_true, ok_bind]
+  · have h1' : ¬ some ($L + (m.fst : Int)) = re := fun h => h1 h.symm
+    cases re with
+    | none => simp [ok_bind]
+    | some v =>
+      have h2 : ¬ v = $L + (m.fst : Int) := fun h => h1 (by rw [h])
+      have h2' : ¬ $L + (m.fst : Int) = v := fun h => h2 h.symm
+      by_cases hv : v = 0
+      · subst hv; simp [h2, h2', ok_bind]
+      · simp [h2, h2', hv, ok_bind, needInt_some]))
+
+/-- the body of `store_info`'s row loop is `rowStep` (`hcl`: every region is a non-empty interval) -/
+macro "row_body" hcl:term : tactic => `(tactic| (
+  intro region hmem t
+  obtain ⟨sc, oid, prev⟩ := t
+  have hlt := $hcl region hmem
+  simp only [id, rowStep, mkFragment_ok _ _ _ _ hlt, ok_bind, ite_ok_bind, gapType_eq]
+  by_cases hg : region.fst = prev.snd <;> simp [hg]))
+
+/-- `name = line[1:].split()[0].decode()` … `line_end_bytes = 2 if line[-2] == 13 else 1`, against `headerPart` -/
+macro "header_tail" tl:term : tactic => `(tactic| (
+  cases htok : (firstTok $tl).isEmpty with
+  | true => simp only [headerPart, List.drop_succ_cons, List.drop_zero, htok, if_true, error_bind, map_error]
+  | false =>
+    cases hstr : bytesToStr (firstTok $tl) with
+    | error e =>
+      simp only [headerPart, List.drop_succ_cons, List.drop_zero, htok, hstr, Bool.false_eq_true, if_false, error_bind, ok_bind,
+        map_error]
+    | ok name =>
+      have hne : name.isEmpty = false := by rw [bytesToStr_isEmpty hstr]; exact htok
+      cases hb2 : pyGet (62 :: $tl) (-2) with
+      | error e =>
+        simp only [headerPart, List.drop_succ_cons, List.drop_zero, htok, hstr, hne, hb2, Bool.false_eq_true, if_false, error_bind,
+          ok_bind, map_error, Bool.not_false, Bool.not_true]
+      | ok b2 =>
+        simp only [headerPart, List.drop_succ_cons, List.drop_zero, htok, hstr, hne, hb2, Bool.false_eq_true, if_false, error_bind,
+          ok_bind, map_ok, Bool.not_false, Bool.not_true, toSrc, stored, Option.getD_some, ite_scaffold]
+        by_cases h13 : b2 = 13
+        · subst h13; all_goals rfl
+        · have : ¬ Int.ofNat b2 = 13 := by simp; omega
+          simp only [h13, this, decide_false, Bool.false_eq_true, if_false]
+          all_goals rfl))
+
+/-! ### the whole function, source against model -/
+
+theorem invL_final (bs : Int) : ∀ (lines : List Bytes) (st st' : IdxState), InvL st lines →
+    lines.foldlM (indexLine bs) st = .ok st' → Inv st' := by
+  intro lines
+  induction lines with
+  | nil =>
+    intro st st' h e
+    simp only [List.foldlM_nil, pure, Except.pure, Except.ok.injEq] at e
+    subst e; exact h.1
+  | cons l ls ih =>
+    intro st st' h e
+    rw [List.foldlM_cons] at e
+    cases hst : indexLine bs st l with
+    | error err => rw [hst] at e; cases e
+    | ok st1 =>
+      rw [hst] at e
+      exact ih st1 st' (invL_step bs h hst) e
+
+theorem indexFasta_eq (lines : List Bytes) (bs : Int) :
+    indexFasta lines bs =
+      lines.foldlM (indexLine bs) {} >>= fun st =>
+        (if st.name.isSome then storeInfo st else .ok st) >>= fun st =>
+          if st.idx.isEmpty then .error .value else .ok st := by
+  unfold indexFasta
+  cases lines.foldlM (indexLine bs) {} with
+  | error e => rfl
+  | ok st =>
+    simp only [ok_bind]
+    by_cases h : st.name.isSome = true
+    · simp only [h, if_true]; rfl
+    · simp only [h, Bool.false_eq_true, if_false]; rfl
+
+theorem isEmpty_snoc {α : Type} (l : List α) (x : α) : (l ++ [x]).isEmpty = false := by
+  cases l <;> rfl
+
+/-- the strong form of the tie: all four components of the source's result -/
+theorem index_fasta_file_imp_eq (bs : Int) (lines : List Bytes) (h0 : preHeaderOk lines = true) :
+    Gen.Imp.index_fasta_file_imp 0 bs lines =
+      (indexFasta lines bs).map (fun st => (st.nextOid, st.idx, st.pos, st.scaffolds)) := by
+  unfold Gen.Imp.index_fasta_file_imp
+  simp only []
+  have key := forIn_abs (ρ := Nat × List (Str × FastaInfo) × Int × List Scaffold) toSrc (indexLine bs) InvL
+  rw [(key _ ?hstep lines {} _ ?hs (invL_init lines h0)).1]
+  case hs => rfl
+  case hstep =>
+    intro line rest st hinv
+    refine ⟨?_, fun t' e => invL_step bs hinv e⟩
+    obtain ⟨hI, hsafe⟩ := hinv
+    cases line with
+    | nil =>
+      have : indexLine bs st [] = .error .index := by simp [indexLine, bind, Except.bind]
+      rw [this]
+      simp only [pyGet_zero_nil, map_error, error_bind]
+    | cons b0 tl =>
+      by_cases hb : b0 = 62
+      · -- a header line
+        subst hb
+        have h62 : decide (Int.ofNat 62 = 62) = true := rfl
+        rw [indexLine_header]
+        cases hn : st.name with
+        | none =>
+          have hsrc : toSrc st = (none, none, st.rpl, none, none, none, none, none, st.idx,
+              { data := st.buffer, pos := st.buffer.length }, st.scaffolds, st.nextOid, st.pos) := by
+            simp only [toSrc, hn]
+          rw [hsrc]
+          simp only [pyGet_zero_cons, map_ok, ok_bind, h62, if_true, Option.isSome_none, Bool.false_eq_true, if_false,
+            slice_one_none_cons, pyGet_split_zero]
+          header_tail tl
+        | some n =>
+          obtain ⟨r, hr⟩ := hI.rplSome n hn
+          have hne : n.isEmpty = false := by
+            cases n with
+            | nil => exact absurd rfl (hI.nameNe _ hn)
+            | cons _ _ => rfl
+          have hsrc : toSrc st = (some n, some st.seqLength, some r, some st.regionStart, st.regionEnd, some st.seqRegions,
+              some st.fileOffset, some st.lineEndBytes, st.idx, { data := st.buffer, pos := st.buffer.length }, st.scaffolds,
+              st.nextOid, st.pos) := by
+            simp only [toSrc, hn, hr]
+          rw [hsrc, storeInfo_eq]
+          simp only [pyGet_zero_cons, map_ok, ok_bind, h62, if_true, Option.isSome_some, slice_one_none_cons,
+            pyGet_split_zero, hne, Bool.not_false, hr, Option.getD_some]
+          -- process_seq_buffer()
+          rw [forIn_abs_pure absReg (mergeRun st.seqLength) _ _ (st.regionStart, st.regionEnd, st.seqRegions) _ ?hs ?hbody]
+          case hs => rfl
+          case hbody => proc_body st.seqLength
+          have hreg := hI.fold
+          generalize (acgtRuns 0 none st.buffer).foldl (mergeRun st.seqLength) (st.regionStart, st.regionEnd, st.seqRegions) = t
+            at hreg ⊢
+          obtain ⟨rs', re', regs'⟩ := t
+          simp only [ok_bind, absReg, needInt_some]
+          -- if region_end: seq_regions.append(...)
+          rw [ite_closeReg rs' re' regs' _ ?hc ?hx]
+          case hc => cases re' <;> simp
+          case hx => intro v hv hv0; subst hv; simp only [ok_bind, needObj_some, needInt_some]
+          have hcl := closeReg_lt _ hreg
+          by_cases hdup : (dGet? st.idx n).isSome = true
+          · simp only [hdup, if_true, ok_bind, error_bind, map_error]
+          · simp only [hdup, Bool.false_eq_true, if_false, ok_bind, needIter_some]
+            -- for region in seq_regions
+            rw [forIn_abs_pure id (rowStep n) _ _ ({ name := n }, st.nextOid, 0, 0) _ ?hs ?hbody]
+            case hs => rfl
+            case hbody => row_body hcl
+            obtain ⟨h1, h2, h3⟩ := foldl_rowStep n (closeReg (rs', re', regs')) { name := n } st.nextOid (0, 0)
+            generalize (closeReg (rs', re', regs')).foldl (rowStep n) ({ name := n }, st.nextOid, 0, 0) = u at h1 h2 h3 ⊢
+            obtain ⟨sc, oid', prev'⟩ := u
+            simp only [List.nil_append] at h1 h2 h3
+            subst h1 h2
+            simp only [ok_bind, id, ite_ok_bind, h3, dSet_of_none _ _ _ (by simpa using hdup), seek_truncate, gapType_eq,
+              Int.ofNat_eq_natCast]
+            header_tail tl
+      · -- a sequence line
+        have h62 : decide (Int.ofNat b0 = 62) = false := by simp; omega
+        obtain ⟨x, hx1, hx2⟩ := pyGet_neg_one (b0 :: tl) (by simp)
+        cases hn : st.name with
+        | none =>
+          obtain ⟨hA, hB⟩ := hsafe hn
+          have hsrc : toSrc st = (none, none, st.rpl, none, none, none, none, none, st.idx,
+              { data := st.buffer, pos := st.buffer.length }, st.scaffolds, st.nextOid, st.pos) := by
+            simp only [toSrc, hn]
+          rw [hsrc]
+          by_cases hl : (b0 :: tl).getLast? = some 10
+          · have hx : x = 10 := by rw [hx1] at hl; simpa using hl
+            subst hx
+            cases hr : st.rpl with
+            | some r =>
+              have := hB (by rw [hr]; simp)
+              simp [safeB, hb, hl] at this
+            | none =>
+              rw [indexLine_pre_term bs st b0 tl hb hr hl]
+              simp only [pyGet_zero_cons, hx2, map_ok, ok_bind, h62, Bool.false_eq_true, if_false, needInt_none, error_bind,
+                if_true, map_error, show decide (Int.ofNat 10 = 10) = true from rfl]
+          · have hx : ¬ Int.ofNat x = 10 := by
+              rw [hx1] at hl; simp at hl; simp; omega
+            rw [indexLine_pre_open bs st b0 tl hb hn hl]
+            simp only [pyGet_zero_cons, hx2, map_ok, ok_bind, h62, hx, decide_false, Bool.false_eq_true, if_false, write_at_end,
+              ite_ok_bind]
+            by_cases hov : Int.ofNat (st.buffer ++ (b0 :: tl)).length > bs
+            · have hov' : ((st.buffer ++ (b0 :: tl)).length : Int) > bs := hov
+              rw [forIn_bind_error .type _ _ _ _ ?hb ?hk]
+              case hb => intro m s; simp only [needInt_none, error_bind]
+              case hk => intro s; obtain ⟨a, b, c⟩ := s; simp only [needInt_none, error_bind]
+              simp only [hov, hov', decide_true, if_true, error_bind, map_error]
+            · have hov' : ¬ ((st.buffer ++ (b0 :: tl)).length : Int) > bs := hov
+              simp only [hov, hov', decide_false, Bool.false_eq_true, if_false, ok_bind, map_ok]
+              simp only [toSrc, addKeep, hn]
+              cases st.rpl with
+              | none => rfl
+              | some r => by_cases h : r = 0 <;> simp [h]
+        | some n =>
+          obtain ⟨r, hr⟩ := hI.rplSome n hn
+          have hleb := hI.lebPos n hn
+          have hsrc : toSrc st = (some n, some st.seqLength, some r, some st.regionStart, st.regionEnd, some st.seqRegions,
+              some st.fileOffset, some st.lineEndBytes, st.idx, { data := st.buffer, pos := st.buffer.length }, st.scaffolds,
+              st.nextOid, st.pos) := by
+            simp only [toSrc, hn, hr]
+          rw [hsrc, indexLine_residue bs st b0 tl r n hb hr hn]
+          have hkeep : (if decide (Int.ofNat x = 10) = true
+                then (Except.ok (slice (b0 :: tl) none (some (-st.lineEndBytes))) : R Bytes) else Except.ok (b0 :: tl))
+              = .ok (keepOf st.lineEndBytes (b0 :: tl)) := by
+            unfold keepOf
+            rw [hx1, slice_none_neg _ _ hleb]
+            by_cases hx : x = 10
+            · subst hx; simp
+            · have : ¬ Int.ofNat x = 10 := by simp; omega
+              simp only [this, decide_false, Bool.false_eq_true, if_false]
+              rw [if_neg (by simpa using hx)]
+          have hr0 : ((if (!decide (r ≠ 0)) = true then some (Int.ofNat (keepOf st.lineEndBytes (b0 :: tl)).length) else some r)
+                : Option Int)
+              = some (if r = 0 then ((keepOf st.lineEndBytes (b0 :: tl)).length : Int) else r) := by
+            by_cases h : r = 0 <;> simp [h]
+          simp only [pyGet_zero_cons, hx2, map_ok, ok_bind, h62, Bool.false_eq_true, if_false, needInt_some, hkeep, write_at_end]
+          by_cases hov : Int.ofNat (st.buffer ++ keepOf st.lineEndBytes (b0 :: tl)).length > bs
+          · have hov' : ((st.buffer ++ keepOf st.lineEndBytes (b0 :: tl)).length : Int) > bs := hov
+            rw [forIn_abs_pure absReg (mergeRun st.seqLength) _ _ (st.regionStart, st.regionEnd, st.seqRegions) _ ?hs ?hbody]
+            case hs => rfl
+            case hbody => proc_body st.seqLength
+            simp only [ite_ok_bind, ok_bind, hr0, hov, hov', decide_true, if_true, absReg, seek_truncate]
+            simp only [toSrc, processSeqBuffer_eq, addKeep, hn]
+            rfl
+          · have hov' : ¬ ((st.buffer ++ keepOf st.lineEndBytes (b0 :: tl)).length : Int) > bs := hov
+            simp only [ite_ok_bind, ok_bind, hr0, hov, hov', decide_false, Bool.false_eq_true, if_false]
+            simp only [toSrc, addKeep, hn]
+            rfl
+  -- after the loop
+  rw [indexFasta_eq]
+  cases hfold : lines.foldlM (indexLine bs) {} with
+  | error e => simp only [map_error, error_bind]
+  | ok st =>
+    have hI := invL_final bs lines {} st (invL_init lines h0) hfold
+    simp only [map_ok, ok_bind]
+    cases hn : st.name with
+    | none =>
+      have hsrc : toSrc st = (none, none, st.rpl, none, none, none, none, none, st.idx,
+          { data := st.buffer, pos := st.buffer.length }, st.scaffolds, st.nextOid, st.pos) := by
+        simp only [toSrc, hn]
+      rw [hsrc]
+      simp only [Option.isSome_none, Bool.false_eq_true, if_false, ok_bind]
+      cases st.idx.isEmpty <;> rfl
+    | some n =>
+      obtain ⟨r, hr⟩ := hI.rplSome n hn
+      have hne : n.isEmpty = false := by
+        cases n with
+        | nil => exact absurd rfl (hI.nameNe _ hn)
+        | cons _ _ => rfl
+      have hsrc : toSrc st = (some n, some st.seqLength, some r, some st.regionStart, st.regionEnd, some st.seqRegions,
+          some st.fileOffset, some st.lineEndBytes, st.idx, { data := st.buffer, pos := st.buffer.length }, st.scaffolds,
+          st.nextOid, st.pos) := by
+        simp only [toSrc, hn, hr]
+      rw [hsrc, storeInfo_eq]
+      simp only [hne, Bool.not_false, if_true, Option.isSome_some, hn, Option.getD_some]
+      rw [forIn_abs_pure absReg (mergeRun st.seqLength) _ _ (st.regionStart, st.regionEnd, st.seqRegions) _ ?hs ?hbody]
+      case hs => rfl
+      case hbody => proc_body st.seqLength
+      have hreg := hI.fold
+      generalize (acgtRuns 0 none st.buffer).foldl (mergeRun st.seqLength) (st.regionStart, st.regionEnd, st.seqRegions) = t
+        at hreg ⊢
+      obtain ⟨rs', re', regs'⟩ := t
+      simp only [ok_bind, absReg, needInt_some]
+      rw [ite_closeReg rs' re' regs' _ ?hc ?hx]
+      case hc => cases re' <;> simp
+      case hx => intro v hv hv0; subst hv; simp only [ok_bind, needObj_some, needInt_some]
+      have hcl := closeReg_lt _ hreg
+      by_cases hdup : (dGet? st.idx n).isSome = true
+      · simp only [hdup, if_true, ok_bind, error_bind, map_error]
+      · simp only [hdup, Bool.false_eq_true, if_false, ok_bind, needIter_some]
+        rw [forIn_abs_pure id (rowStep n) _ _ ({ name := n }, st.nextOid, 0, 0) _ ?hs ?hbody]
+        case hs => rfl
+        case hbody => row_body hcl
+        obtain ⟨h1, h2, h3⟩ := foldl_rowStep n (closeReg (rs', re', regs')) { name := n } st.nextOid (0, 0)
+        generalize (closeReg (rs', re', regs')).foldl (rowStep n) ({ name := n }, st.nextOid, 0, 0) = u at h1 h2 h3 ⊢
+        obtain ⟨sc, oid', prev'⟩ := u
+        simp only [List.nil_append] at h1 h2 h3
+        subst h1 h2
+        simp only [ok_bind, id, ite_ok_bind, h3, dSet_of_none _ _ _ (by simpa using hdup), gapType_eq,
+          Int.ofNat_eq_natCast, stored, ite_scaffold, isEmpty_snoc, Bool.not_false, if_true, Bool.false_eq_true, if_false,
+          map_ok, hn, hr, Option.getD_some]
+
 end AgpTpf.ImpIndex
